@@ -8,6 +8,7 @@ import (
 	"os"
 	"path/filepath"
 	"sync"
+	"sync/atomic"
 	"time"
 
 	"github.com/cenkalti/rpc2"
@@ -119,7 +120,13 @@ type RawPeer struct {
 	// Hold, when set (before the first notification), is called with every notification
 	// after it was recorded and before it is acknowledged: a slow peer.
 	Hold func(Notification)
+	// refuse is the number of coming notifications to answer with a JSON-RPC error (they are
+	// recorded all the same): a peer that could not apply an update says so and goes on.
+	refuse int32
 }
+
+// RefuseNext makes the peer answer its next n notifications with an error.
+func (p *RawPeer) RefuseNext(n int) { atomic.StoreInt32(&p.refuse, int32(n)) }
 
 // DialRaw connects a raw peer to a unix socket.
 func DialRaw(sock string) (*RawPeer, error) {
@@ -139,6 +146,10 @@ func DialRaw(sock string) (*RawPeer, error) {
 			p.mu.Unlock()
 			if hold != nil {
 				hold(n)
+			}
+			if atomic.LoadInt32(&p.refuse) > 0 {
+				atomic.AddInt32(&p.refuse, -1)
+				return fmt.Errorf("the harness peer refuses this notification")
 			}
 			*reply = []interface{}{}
 			return nil
